@@ -39,6 +39,20 @@ class Prop:
         return True
 
     default_mode = None
+    def run_model(self, batch, scripts, iout, shards=C.NPROC):
+        return C.run_sharded(C.MODEL_RUN, batch.mode, scripts, batch.timeout, shards)
+
+    def well_formed(self, lines):
+        d = 0
+        for l in lines:
+            if l.strip() == "{":
+                d += 1
+            elif l.strip() == "}":
+                d -= 1
+                if d < 0:
+                    return False
+        return d == 0
+
     spec_is_oracle = False   # the model side is the property's specification: a disagreement is a failing input
 
     def agree(self, batch, name, lines, mout, io):
@@ -116,7 +130,7 @@ def run_property(prop, tier, seed):
     for b in all_batches():
         tb = time.time()
         iout = C.run_sharded(C.IMPL_RUN, b.mode, b.scripts, b.timeout)
-        mout = C.run_sharded(C.MODEL_RUN, b.mode, b.scripts, b.timeout) if b.compare else {}
+        mout = prop.run_model(b, b.scripts, iout) if b.compare else {}
         nbad = 0
         for name, lines in b.scripts:
             evaluations += 1
@@ -157,10 +171,14 @@ def run_property(prop, tier, seed):
         b, name, lines, io, why = oracle_fail
 
         def judge(cand):
+            if not prop.well_formed(cand):
+                return None
             o = C.run_sharded(C.IMPL_RUN, b.mode, [("s", cand)], 120, 1).get("s", ["MISSING"])
+            if any("harness-error" in x for x in o):
+                return None
             w = None
             if prop.spec_is_oracle and b.compare:
-                m = C.run_sharded(C.MODEL_RUN, b.mode, [("s", cand)], 120, 1)
+                m = prop.run_model(b, [("s", cand)], {"s": o}, 1)
                 if any(("illegal" in x or "CRASH" in x) for v in m.values() for x in v):
                     return None      # the shrunk script is no longer a legal program
                 w = prop.agree(b, "s", cand, m, o)
@@ -173,7 +191,7 @@ def run_property(prop, tier, seed):
             return judge(cand) is not None
         small = C.shrink(lines, still)
         o2 = C.run_sharded(C.IMPL_RUN, b.mode, [("s", small)], 120, 1).get("s", ["MISSING"])
-        m2 = C.run_sharded(C.MODEL_RUN, b.mode, [("s", small)], 120, 1).get("s", ["MISSING"]) if b.compare else []
+        m2 = prop.run_model(b, [("s", small)], {"s": o2}, 1).get("s", ["MISSING"]) if b.compare else []
         tag = hashlib.md5("\n".join(small).encode()).hexdigest()[:12]
         d = C.write_replay(pid, tag, {
             "script.ops": "# %s\n%s\n---\n" % (name, "\n".join(small)),
@@ -253,7 +271,7 @@ def replay(prop, path):
     C.ensure_built()
     scripts = C.split_scripts(open(sp).read())
     i = C.run_sharded(C.IMPL_RUN, mode, scripts, 300, 1)
-    m = C.run_sharded(C.MODEL_RUN, mode, scripts, 300, 1)
+    m = prop.run_model(Batch(mode, scripts, "replay"), scripts, i, 1)
     rc = 0
     for name, lines in scripts:
         print("script", name)
